@@ -243,7 +243,7 @@ def run(ck):
         ck.extra[k] = dict(ck.extra[k])
     ck.extra['programs'] = nprog
     ck.extra['mutants'] = len(items)
-    ck.cov['rule'] = ('witness programs of every recorded finding; type-directed random well-typed programs (progen, prefix/infix/mixed spelling) checked by the '
+    ck.cov['rule'] = ('witness programs of every recorded finding; the construct x context matrix (c04_matrix.py: builtins, enum operands, structs/tuples/match in 11 contexts) and the identifier-spelling axis (c04_ident.py: 10 binding positions x 101 spellings hostile to the emitted C), every accepted cell on both real backends; type-directed random well-typed programs (progen, prefix/infix/mixed spelling) checked by the '
                       'extracted reference checker, the real front end and BOTH real backends (nano_virt --run; nanoc + the binary); all catalogue mutants of a '
                       'subset of them (ill-typed by theorem) checked by the real front end, and a sample per class of accepted ones run on both backends.  '
                       'non-trivial = a program that went through both real backends, or a mutant on which both checkers agree (rejected); distinct = distinct program')
